@@ -218,6 +218,10 @@ class Driver:
         from stepup.core.enums import Need
         existed = n in self.idx
         executing = bool(self.cmds.get(n))
+        before = None
+        if existed:
+            async with self.w.db:
+                before = {o[0]: o for o in self.dump()}.get(n)
 
         def fn():
             self.w.wf.define_step(self.step(p), lab(n), resources=dict(cl), need=Need(need),
@@ -227,8 +231,15 @@ class Driver:
             self.idx[n] = len(self.idx)
             self.cmds[n] = []
         if acc and existed and executing:
-            self.recycled_executing.append(n)
-            self.count("recycled_executing")
+            after = self.items[-1][2]
+            after = {o[0]: o for o in after}.get(n)
+            # benign (C12_*_calm): state, _holding and step_resource of the executing step are what they were;
+            # only a re-declaration that changed one of them can be behind a D21 violation
+            if before is not None and after is not None and before[3:5] == after[3:5] and before[6] == after[6]:
+                self.count("recycled_executing_benign")
+            else:
+                self.recycled_executing.append(n)
+                self.count("recycled_executing")
         self.count("define_ok" if acc else "define_rejected")
         if acc and existed:
             self.count("recycle")
@@ -460,8 +471,8 @@ def _recycle_script(rng):
     kind = rng.choice(["running", "running", "checking"])
     g2 = rng.choice([0, 1])
     cl1 = rng.choice([{"gpu": 1}, {"gpu": 1}, {"cpu": 1}, {}])
-    cl2 = rng.choice([{}, {"gpu": 1}, {"cpu": 2}, cl1])
-    nhold = rng.choice([0, 1, 1, 2])
+    cl2 = rng.choice([{}, {"gpu": 1}, {"cpu": 2}, cl1, cl1, cl1])
+    nhold = rng.choice([0, 0, 1, 1, 2])
     dn = Need.DEFAULT.value
 
     async def popr(d):
